@@ -591,6 +591,31 @@ theorem step_inv2 (s : State) (o : Op) (hi1 : Inv1 s) (hi : Inv2 s) : Inv2 (step
     · exact hi.sc
     · exact hi.curNone
   | deliver => exact deliver_inv2 s hi1 hi
+  | regen =>
+    simp only [step]
+    obtain ⟨g2, e2, b2⟩ := prune_good s hi.g1 hi1.nd
+    obtain ⟨_, hm, _, sm⟩ := prune_frame s hi1.nd
+    generalize prune s = s2 at g2 e2 b2 sm hm
+    refine ⟨G1_transfer rfl rfl id g2, fun h x j hj hs => b2 h x j hj hs, ?_, ?_, rfl, ?_⟩
+    · show s2.static.Nodup
+      rw [e2.static]; exact hi.staticNd
+    · show LastIs s2.queue (curList _) s2.static
+      have hcl : curList ({ s2 with pushedSC := s2.active.map (fun i => i.name), pushes := s2.pushes + 1 } : State) = curList s := by
+        simp [curList, sm.cur]
+      rw [hcl]
+      exact LastIs_ext (curList s) e2 hi.last
+    · intro h
+      have h0 : s.cur = none := by rw [← sm.cur]; exact h
+      have ha := hi.curNone h0
+      show s2.active = []
+      -- with an empty table there is nothing to prune
+      have : names s2.active = [] := by
+        rw [List.eq_nil_iff_forall_not_mem]
+        intro x hx
+        have := ((hm x).mp hx).1
+        rw [ha] at this
+        simp [names] at this
+      simpa [names] using this
   | select rid c =>
     simp only [step]
     split
